@@ -276,7 +276,30 @@ func run(c Case) (fail string, hol, grewWrapped bool) {
 	serial := 0
 	tags := map[int]*cbTag{}
 
+	// what was handed back is kept by the caller (the service decodes the request from
+	// Msgbuf and gives the message, which refers to these bytes, to the completion
+	// callback): the copies must stay what they were, whatever the queue does next
+	type kept struct {
+		id         uint16
+		msg, ack   []byte // the slices handed back (not copies)
+		wmsg, wack []byte
+	}
+	var keep []kept
+	checkKept := func(where string) string {
+		for _, k := range keep {
+			if !bytes.Equal(k.msg, k.wmsg) {
+				return fmt.Sprintf("%s: the request bytes handed back earlier for id %d have changed since (%x, were %x): the queue reused the buffer it had handed out", where, k.id, clipb(k.msg), clipb(k.wmsg))
+			}
+			if !bytes.Equal(k.ack, k.wack) {
+				return fmt.Sprintf("%s: the acknowledgement bytes handed back earlier for id %d have changed since (%x, were %x): the queue reused the buffer it had handed out", where, k.id, clipb(k.ack), clipb(k.wack))
+			}
+		}
+		return ""
+	}
 	checkAcked := func(where string) string {
+		if f := checkKept(where); f != "" {
+			return f
+		}
 		got := q.Acked()
 		var want []*entry
 		for len(m.list) > 0 && m.terminal(m.list[0]) {
@@ -310,6 +333,10 @@ func run(c Case) (fail string, hol, grewWrapped bool) {
 			}
 			if tg, _ := g.OnComplete.(*cbTag); tg != tags[w.tag] {
 				return fmt.Sprintf("%s: Acked[%d] (id %d) carries another request's completion callback", where, i, w.id)
+			}
+			keep = append(keep, kept{w.id, g.Msgbuf, g.Ackbuf, w.req, w.ack})
+			if len(keep) > 40 {
+				keep = keep[len(keep)-40:]
 			}
 		}
 		return ""
@@ -462,7 +489,17 @@ func run(c Case) (fail string, hol, grewWrapped bool) {
 	if got := q.Acked(); len(got) != 0 {
 		return fmt.Sprintf("empty queue returned %d entries", len(got)), m.hol, m.grewWrapped
 	}
+	if f := checkKept("end of the history"); f != "" {
+		return f, m.hol, m.grewWrapped
+	}
 	return "", m.hol, m.grewWrapped
+}
+
+func clipb(b []byte) []byte {
+	if len(b) > 24 {
+		return b[:24]
+	}
+	return b
 }
 
 // ---- ping slot -------------------------------------------------------------
